@@ -373,6 +373,99 @@ def family_stream(ctx, tg, wd, tfile, points, dis, use_model):
     ctx.extra["family_stream_runs"] = nruns
 
 
+def fresh_wisdom_stream(ctx, tg, wd):
+    """strengthening st3weak (seed C14-I class: code that runs only on the FIRST run for a transform size - FFTW planning when
+    no wisdom file exists - changes the signal disposition and does not put it back).  Every other stream shares one wisdom
+    directory (lib/vp_build.xdg_env) that a warm-up run has filled, so the planning branches of FFTWWrapper.cpp are never
+    entered there.  Here every run gets an EMPTY XDG_DATA_HOME of its own (alternately: no inovesa/fftwisdom directory at all /
+    an empty one), so the wisdom is created in the very run that is interrupted; SIGINT at the first occurrence of every hook
+    label from the construction of the impedances on (set-up after the fields, prologue, first iteration, output block, final
+    block), at some later occurrences, at a few set-up points BEFORE the planning with repeated signals, and beyond the last
+    point.  Oracles: the structural clauses of the property (exit 0, 'Aborted.', readable file, consistent lengths, step in
+    progress finished and none started).  Records are NOT compared bit for bit with a reference: freshly planned transforms may
+    round differently from run to run (FFTW_PATIENT chooses by timing).  Own PRNG."""
+    import random
+    rng = random.Random(ctx.seed * 15485863 + 77)
+    nruns = nplanned = 0
+    for fi in range(1 if ctx.quick() else 3):
+        cfg = dict(n=rng.choice([16, 32]), N=rng.choice([6, 7, 8]), T=1, outstep=rng.choice([2, 3]), h5save=rng.choice([1, 1, 2]),
+                   renorm=rng.choice([-1, 0, 3]), wake=True, dynrf=False, tracking=None, verbose=False,
+                   extra=["--padding", rng.choice(["2", "4", "8"])])
+        xdg = os.path.join(wd, "fresh-xdg")
+
+        def fresh(k):
+            shutil.rmtree(xdg, ignore_errors=True)
+            os.makedirs(os.path.join(xdg, "inovesa", "fftwisdom") if k % 2 else xdg)
+            return {"XDG_DATA_HOME": xdg}
+        out = os.path.join(wd, "fw.h5")
+        un = dc.run_real(tg, cfg, os.path.join(wd, "fwun.h5"), extra_env=fresh(1))
+        hun = dc.h5read(tg, os.path.join(wd, "fwun.h5"))
+        case0 = dict(cmd=" ".join(dc.cmdline(cfg, "int.h5")), stream="fresh-wisdom", XDG_DATA_HOME="<an empty directory made for this run>")
+        if hun is None or un["rc"] != 0:
+            ctx.violation("impl-oracle", "uninterrupted run with an empty XDG_DATA_HOME failed", case=case0, observed=un["log"][-400:],
+                          sig={"oracle": "run-failed", "stream": "fresh-wisdom"})
+            continue
+        if "Created some wisdom" not in un["log"]:
+            ctx.count("fresh-wisdom:no-planning-happened")       # nothing to look at: the branch was not entered
+            continue
+        labels = un["labels"]
+        P = len(labels)
+        start = next((i for i, l in enumerate(labels) if l in ("setup:wake_impedance", "setup:rdtn_impedance")), 0)
+        by = {}
+        for i, l in enumerate(labels):
+            if i >= start:
+                by.setdefault(l, []).append(i)
+        plan = [(P, False)]
+        firsts = sorted(v[0] for v in by.values())
+        if ctx.quick():
+            keep = [i for i in firsts if labels[i].split(":")[0] in ("setup", "sim", "pre")]
+            rest = [i for i in firsts if i not in keep]
+            keep += rng.sample(rest, min(len(rest), 14))
+            firsts = sorted(keep)
+        for i in firsts:
+            plan.append((i, rng.random() < 0.25))
+        later = [rng.choice(v[1:]) for v in by.values() if len(v) > 1]
+        for i in rng.sample(later, min(len(later), 4 if ctx.quick() else 20)):
+            plan.append((i, rng.random() < 0.25))
+        for i in rng.sample(range(start), min(start, 3)):
+            plan.append((i, True))          # repeated signals that start before the planning and go on after it
+        last_read = labels.index("fin:message") if "fin:message" in labels else P
+        for k, (i, rep) in enumerate(sorted(plan)):
+            r = dc.run_real(tg, cfg, out, sig_at=i, rep=rep, extra_env=fresh(k))
+            h = dc.h5read(tg, out)
+            label = labels[i] if i < P else "(beyond the last point)"
+            case = dict(case0, INOVESA_VERIF_SIGINT_AT=i, INOVESA_VERIF_SIGINT_REPEAT=rep, label=label)
+            planned = "Created some wisdom" in r["log"]
+            nplanned += planned
+            nruns += 1
+            tail = dc.log_tail(r["log"])
+            vio = []
+            if r["rc"] != 0:
+                vio.append(("exit", "exit status %s after SIGINT at %s" % (r["rc"], label)))
+            if i < last_read and tail != "Aborted.":
+                vio.append(("message", "last message %r after SIGINT at %s" % (tail, label)))
+            if h is None:
+                vio.append(("file", "results file unreadable after SIGINT at %s" % label))
+            else:
+                for b in consistent_lengths(h):
+                    vio.append(("lengths", b + " (SIGINT at %s)" % label))
+                m_exp = labels[:i + 1].count("loop:head")
+                m_real = r["labels"].count("loop:head")
+                ts = dc.time_steps(h, cfg)
+                if m_real != m_exp or not ts or ts[-1] != m_exp:
+                    vio.append(("steps", "SIGINT at %s (step %d in progress): %d steps executed, final record at step %s, expected %d" % (
+                        label, max(m_exp - 1, 0), m_real, ts[-1] if ts else None, m_exp)))
+            for key, what in vio[:3]:
+                ctx.violation("impl-oracle", what + " - first run for its transform sizes: the FFTW wisdom was %s in this very run (empty XDG_DATA_HOME)"
+                              % ("created" if planned or r["rc"] != 0 else "not needed"), case=case, observed=dict(rc=r["rc"], tail=tail),
+                              sig={"oracle": key, "where": label.split(":")[0], "stream": "fresh-wisdom"})
+            ctx.case_done("fw%d:%s@%d%s" % (fi, label, i, "r" if rep else ""), planned and i < P)
+            ctx.count("fresh-wisdom:point=" + label.split(":")[0])
+        shutil.rmtree(xdg, ignore_errors=True)
+    ctx.extra["fresh_wisdom_runs"] = nruns
+    ctx.extra["fresh_wisdom_runs_that_planned"] = nplanned
+
+
 def append_opaque_note(ctx):
     """what the translator of the append overloads could not evaluate (conditions on the object's members / the arguments):
     listed in the evidence; C14_append_records_all_or_nothing quantifies over their values"""
@@ -462,6 +555,7 @@ def run(ctx):
         library_points(ctx, tg, cfg, wd, un, hun, href, refcfg, points, nsetup, dis, use_model)
     early_exits(ctx, tg, wd, dis, use_model)
     family_stream(ctx, tg, wd, tfile, points, dis, use_model)
+    fresh_wisdom_stream(ctx, tg, wd)
     append_opaque_note(ctx)
     if not ctx.quick():
         async_stream(ctx, tg, wd, tfile)
@@ -483,6 +577,8 @@ def replay(ctx, rp):
                                                                    "VERIF_LIBSIG_REPEAT=1" if c.get("VERIF_LIBSIG_REPEAT") else "", tg["inovesa"], c.get("cmd"),
                                                                    c.get("VERIF_LIBSIG_AT"), c.get("function")))
         return
+    if c.get("stream") == "fresh-wisdom":
+        print("this case needs XDG_DATA_HOME=<a new, empty directory> (no FFTW wisdom yet: the transforms are planned in the interrupted run)")
     print("re-run: INOVESA_VERIF_SIGINT_AT=%s %s %s %s   (env from lib/vp_build.xdg_env(), under timeout)" % (
         c.get("INOVESA_VERIF_SIGINT_AT"), "INOVESA_VERIF_SIGINT_REPEAT=1" if c.get("INOVESA_VERIF_SIGINT_REPEAT") else "",
         tg["inovesa"], c.get("cmd")))
